@@ -35,6 +35,11 @@ use harness::*;
 use std::alloc::{alloc_zeroed, dealloc, Layout};
 use std::mem::{align_of, size_of, size_of_val};
 
+// The `repr` tie and the non-normalised lengths are compiled only with the harness feature
+// `c01x` (second run of the check), so that a change which removes those structs or the
+// ArrayLength impls for non-normalised digit patterns cannot keep the MAIN run from building
+// and from finding a concrete failing (T, N).
+#[cfg(feature = "c01x")]
 #[allow(dead_code)]
 extern "C" {
     // never called, never linked: only type-checked.  U5 = odd(even(odd)), U6 = even(odd(odd))
@@ -423,6 +428,11 @@ type L1 = UInt<UTerm, B0>;
 type L2 = UInt<L1, B0>;
 type L3 = UInt<L2, B0>;
 type L7 = UInt<UInt<UInt<UInt<L3, B0>, B0>, B0>, B0>;
+#[cfg(not(feature = "c01x"))]
+fn table_nonnorm<T>() -> Vec<Probe> {
+    vec![]
+}
+#[cfg(feature = "c01x")]
 fn table_nonnorm<T>() -> Vec<Probe> {
     mk_table!(T;
         L1 = 0, L2 = 0, L3 = 0, L7 = 0,
@@ -800,8 +810,7 @@ macro_rules! nest_q {
         mk_nest_table!($e, $m, $mn; U0 = 0, U1 = 1, U2 = 2, U3 = 3, U4 = 4, U5 = 5, U6 = 6, U7 = 7, U8 = 8,
             U9 = 9, U10 = 10, U11 = 11, U12 = 12, U13 = 13, U14 = 14, U15 = 15, U16 = 16, U17 = 17,
             U31 = 31, U32 = 32, U33 = 33, U63 = 63, U64 = 64, U97 = 97, U127 = 127, U128 = 128,
-            U255 = 255, U256 = 256, U1023 = 1023, U1024 = 1024, Sum<U1024, U1> = 1025,
-            L2 = 0, UInt<UInt<L1, B1>, B1> = 3)
+            U255 = 255, U256 = 256, U1023 = 1023, U1024 = 1024, Sum<U1024, U1> = 1025)
     };
 }
 
@@ -1020,7 +1029,10 @@ fn main() {
     let a = args();
     quiet_panics();
     let thorough = a.tier == "thorough" || a.replay.is_some();
-    let jobs = all_jobs(thorough);
+    #[allow(unused_mut)]
+    let mut jobs = all_jobs(thorough);
+    #[cfg(feature = "c01x")]
+    jobs.retain(|j| j.key.ends_with("-nonnormalised"));
     if let Some(c) = a.replay {
         let mut found = false;
         for j in jobs.iter() {
